@@ -21,6 +21,7 @@ import CookModel.Lemmas.LooseValue
 import CookModel.Lemmas.UnitKeysBlank
 import CookModel.Lemmas.NoFence
 import CookModel.Lemmas.InlineScanPrefix
+import CookModel.Lemmas.InlineBlank
 /-
   C17  Line endings, comments and blank space do not change the recipe.
 
@@ -2758,5 +2759,158 @@ example : (findInlineQuantity (α := Rat) C17_toyEnv 9 "dda ".toList.reverse "2 
     (findInlineQuantity (α := Rat) C17_toyEnv 9 [] "2 cups now".toList).isNone :=
   C17_inline_scan_none_prefix_free _ _ _ _ _
 -- ===== end w8c17fence =====
+
+-- ===== w9c17inline =====
+/-! ## Wave 9: obstacle (i), the inline-quantity scan under inserted blanks (INLINE_QUANTITIES on).
+
+  Through the specification of the finder (`Lemmas/FinderSpec.lean`): the candidate `number blanks unit-word` of
+  the text and of the text with blanks inserted next to a blank / at the end have the same number and unit word,
+  and remaining texts related in the same way (`w9i_step`, `Lemmas/InlineBlank.lean`).  The one new candidate is
+  `(n, "")` when blanks are appended behind a final number (`take 2` → `take 2 `); it is rejected iff the
+  converter knows no blank unit — `hblank`, true of the bundled table (`C17_bundled_find_unit_blank`). -/
+
+/-- **The scan finds no quantity in `x ++ y` ⇒ it finds none in `x ++ b ++ y`**, `b` white space, put next to
+    white space or at the end (`BlankAdj`: `y` empty, or `y` starts / `x` ends with white space); fuel as the
+    analysis gives it (length + 1).  `hd`: no digit is white space (true of the real table,
+    `C03_digitsNotWs_real`); `hblank`: `find_unit` of a blank string is `None`. -/
+theorem C17_inline_scan_blank_insertion {α : Type} [Arith α] (env : Env) (hd : DigitsNotWs env.cs)
+    (hblank : ∀ k : Str, k.all env.cs.uws = true → env.findUnit k = none)
+    (x b y : Str) (hb : ∀ a ∈ b, env.cs.uws a = true) (hadj : BlankAdj env.cs.uws x y)
+    (h : findInlineQuantity (α := α) env ((x ++ y).length + 1) [] (x ++ y) = none) :
+    findInlineQuantity (α := α) env ((x ++ b ++ y).length + 1) [] (x ++ b ++ y) = none :=
+  w9i_find_none_ins env hd hblank x b y hb hadj h
+
+/-- the same on the specification of the finder: no candidate of the candidate sequence is accepted -/
+theorem C17_inline_nothing_blank_insertion {α : Type} [Arith α] (env : Env) (hd : DigitsNotWs env.cs)
+    (hblank : ∀ k : Str, k.all env.cs.uws = true → env.findUnit k = none)
+    (x b y : Str) (hb : ∀ a ∈ b, env.cs.uws a = true) (hbne : b ≠ []) (hadj : BlankAdj env.cs.uws x y)
+    (h : FsNothing α env (x ++ y)) : FsNothing α env (x ++ (b ++ y)) :=
+  w9i_nothing_ins env hd hblank b hb hbne _ x y (Nat.lt_succ_self _) hadj h
+
+/-- INLINE_QUANTITIES on, unit `g` known: the environment of the examples -/
+def C17_w9Env : Env := ⟨toyCharSpec, ⟨128⟩, fun k => if k = ['g'] then some 1 else none, fun _ _ => .ok, fun c => [c], 0⟩
+
+theorem C17_w9_digits : DigitsNotWs toyCharSpec := by
+  intro c h
+  simp only [isAsciiDigitC, Bool.and_eq_true, decide_eq_true_eq] at h
+  have h1 : 48 ≤ c.val := h.1
+  have h2 : c.val ≤ 57 := h.2
+  simp only [toyCharSpec, Char.isWhitespace, Bool.or_eq_false_iff, decide_eq_false_iff_not]
+  refine ⟨⟨⟨?_, ?_⟩, ?_⟩, ?_⟩ <;> intro e <;> subst e <;> revert h1 h2 <;> decide
+
+theorem C17_w9_blank : ∀ k : Str, k.all C17_w9Env.cs.uws = true → C17_w9Env.findUnit k = none := by
+  intro k hk
+  show (if k = ['g'] then some 1 else none) = none
+  split
+  · next e => subst e; exact absurd hk (by decide)
+  · rfl
+
+/-! non-vacuity: `take 2 cups` → `take   2 cups`, and the new end-of-text candidate: `take 2` → `take 2  `;
+    the environment does find `2 g` -/
+example : C17_w9Env.ext.has Gen.EXT_INLINE_QUANTITIES = true := by decide
+example : findInlineQuantity (α := Rat) C17_w9Env 14 [] ("take ".toList ++ "  ".toList ++ "2 cups".toList) = none :=
+  C17_inline_scan_blank_insertion C17_w9Env C17_w9_digits C17_w9_blank "take ".toList "  ".toList "2 cups".toList
+    (by decide) (Or.inr (Or.inr ⟨"take".toList, ' ', by decide, by decide⟩)) (by decide)
+example : findInlineQuantity (α := Rat) C17_w9Env 9 [] ("take 2".toList ++ "  ".toList ++ []) = none :=
+  C17_inline_scan_blank_insertion C17_w9Env C17_w9_digits C17_w9_blank "take 2".toList "  ".toList []
+    (by decide) (Or.inl rfl) (by decide)
+example : (findInlineQuantity (α := Rat) C17_w9Env 9 [] "take 2 g".toList).isSome = true := by decide
+
+/-- **The extension condition of a text run (`SegX.extOK`: under INLINE_QUANTITIES the run shows something and
+    the scan finds nothing in it) is inherited when filler showing only white space is inserted next to white
+    space / at the end of the run.** -/
+theorem C17_text_run_ext_after_filler {α : Type} [Arith α] (env : Env) (hd : DigitsNotWs env.cs)
+    (hblank : ∀ k : Str, k.all env.cs.uws = true → env.findUnit k = none) (l1 F l2 : List Tok)
+    (hvis : ∀ c ∈ F.flatMap vis, env.cs.uws c = true)
+    (hadj : BlankAdj env.cs.uws (l1.flatMap vis) (l2.flatMap vis))
+    (h : (SegX.text (l1 ++ l2)).extOK α env) : (SegX.text (l1 ++ F ++ l2)).extOK α env := by
+  intro hon
+  obtain ⟨hne, hnone⟩ := h hon
+  simp only [List.flatMap_append] at hne hnone ⊢
+  refine ⟨?_, w9i_find_none_ins env hd hblank _ _ _ hvis hadj hnone⟩
+  intro e
+  apply hne
+  simp only [List.append_eq_nil_iff] at e ⊢
+  exact ⟨e.1.1, e.2⟩
+
+example : (SegX.text ([tk .word "take".toList, tk .ws [' ']] ++ [tk .blockComment "[- c -]".toList, tk .ws [' ']] ++
+    [tk .int ['2'], tk .ws [' '], tk .word "cups".toList])).extOK Rat C17_w9Env :=
+  C17_text_run_ext_after_filler C17_w9Env C17_w9_digits C17_w9_blank _ _ _ (by decide)
+    (Or.inr (Or.inr ⟨"take".toList, ' ', by decide, by decide⟩))
+    (fun _ => ⟨by decide, by decide⟩)
+
+/-- **`DocWF` of the transformed document from `DocWF` of the original, EVERY extension set** (obstacle (i)
+    closed: `hext` of `C17_insertion_in_text_wellformed_no_fence_partial` derived).  Filler `F` showing only white
+    space, inserted in a text run next to white space or at the end of the run.  Conditions that remain are on
+    the insertion (`fncFillerOK` of the printed filler, spelling of the token list — both needed, see wave 8) and on
+    the environment: no digit is white space, the converter knows no blank unit (both true of the real table and
+    the bundled converter; without INLINE_QUANTITIES neither is used). -/
+theorem C17_insertion_in_text_wellformed_all_ext {α : Type} [Arith α] (env : Env) (hd : DigitsNotWs env.cs)
+    (hblank : ∀ k : Str, k.all env.cs.uws = true → env.findUnit k = none) (pre : List Tok)
+    (D1 D2 : List (DocItem × List Tok)) (sep : List Tok) (S1 S2 : List SegX) (l1 F l2 : List Tok) (hF : IsFiller F)
+    (hnf : fncFillerOK env.cs (render F) = true)
+    (hvis : ∀ c ∈ F.flatMap vis, env.cs.uws c = true)
+    (hadj : BlankAdj env.cs.uws (l1.flatMap vis) (l2.flatMap vis))
+    (h : DocWF α env pre (D1 ++ (DocItem.step (S1 ++ SegX.text (l1 ++ l2) :: S2), sep) :: D2))
+    (hw : WellSpelled env.cs (pre ++ docSpec (D1 ++ (DocItem.step (S1 ++ SegX.text (l1 ++ F ++ l2) :: S2), sep) :: D2))) :
+    DocWF α env pre (D1 ++ (DocItem.step (S1 ++ SegX.text (l1 ++ F ++ l2) :: S2), sep) :: D2) := by
+  refine C17_insertion_in_text_wellformed_no_fence_partial env pre D1 D2 sep S1 S2 l1 F l2 hF hnf h ?_ hw
+  have hs := h.ext (DocItem.step (S1 ++ SegX.text (l1 ++ l2) :: S2), sep) (by simp)
+  exact C17_text_run_ext_after_filler env hd hblank l1 F l2 hvis hadj (hs (SegX.text (l1 ++ l2)) (by simp))
+
+theorem C17_w9_adj_mono (ws ws' : Char → Bool) (hws : ∀ c, ws c = true → ws' c = true) (x y : List Char)
+    (h : BlankAdj ws x y) : BlankAdj ws' x y := by
+  rcases h with h | ⟨c, r, e, hc⟩ | ⟨r, c, e, hc⟩
+  · exact Or.inl h
+  · exact Or.inr (Or.inl ⟨c, r, e, hws c hc⟩)
+  · exact Or.inr (Or.inr ⟨r, c, e, hws c hc⟩)
+
+/-- **Trailing comment / trailing blanks / block comment between words of step text: the same recipe, from the
+    well-formedness of the ORIGINAL alone, EVERY extension set** (INLINE_QUANTITIES included).  `ws`: the white
+    space of the comparison, part of the Unicode white space of the scan (`hws`); the rest as in
+    `C17_insertion_in_text_same_recipe_inline_off` and the theorem above. -/
+theorem C17_insertion_in_text_same_recipe {α : Type} [Arith α] (env : Env) (ws : Char → Bool)
+    (hws : ∀ c, ws c = true → env.cs.uws c = true) (hd : DigitsNotWs env.cs)
+    (hblank : ∀ k : Str, k.all env.cs.uws = true → env.findUnit k = none) (pre : List Tok)
+    (D1 D2 : List (DocItem × List Tok)) (sep : List Tok) (S1 S2 : List SegX) (l1 F l2 : List Tok) (hF : IsFiller F)
+    (hnf : fncFillerOK env.cs (render F) = true)
+    (hvis : ∀ c ∈ F.flatMap vis, ws c = true) (hadj : BlankAdj ws (l1.flatMap vis) (l2.flatMap vis))
+    (hS2 : ∀ s, S2.head? = some s → s.isText = false)
+    (h : DocWF α env pre (D1 ++ (DocItem.step (S1 ++ SegX.text (l1 ++ l2) :: S2), sep) :: D2))
+    (hw : WellSpelled env.cs (pre ++ docSpec (D1 ++ (DocItem.step (S1 ++ SegX.text (l1 ++ F ++ l2) :: S2), sep) :: D2))) :
+    SameRecipe ws
+      (parseRecipe (α := α) env
+        (render (pre ++ docSpec (D1 ++ (DocItem.step (S1 ++ SegX.text (l1 ++ F ++ l2) :: S2), sep) :: D2))))
+      (parseRecipe (α := α) env
+        (render (pre ++ docSpec (D1 ++ (DocItem.step (S1 ++ SegX.text (l1 ++ l2) :: S2), sep) :: D2)))) := by
+  refine C17_insertion_same_recipe env ws pre pre _ _
+    (C17_insertion_in_text_wellformed_all_ext env hd hblank pre D1 D2 sep S1 S2 l1 F l2 hF hnf
+      (fun c hc => hws c (hvis c hc)) (C17_w9_adj_mono ws _ hws _ _ hadj) h hw) h ?_
+  simp only [List.map_append, List.map_cons]
+  exact C17_insertion_in_one_step ws _ _ _ _ (SegsIns.inText S1 S2 l1 F l2 hvis hadj hS2)
+
+/-! non-vacuity (the hypotheses are satisfiable; toy environment): `Mix [- c -] well⏎` against `Mix well⏎` -/
+example : SameRecipe (α := Rat) (fun c => c = ' ')
+    (parseRecipe C17_toyEnv "Mix [- c -] well\n".toList) (parseRecipe C17_toyEnv "Mix well\n".toList) := by
+  have h := C17_insertion_in_text_same_recipe (α := Rat) C17_toyEnv (fun c => c = ' ')
+    (by intro c hc; simp only [decide_eq_true_eq] at hc; subst hc; decide) C17_w9_digits (fun _ _ => rfl) []
+    [] [] [tk .newline ['\n']] [] [] [tk .word "Mix".toList, tk .ws [' ']]
+    [tk .blockComment "[- c -]".toList, tk .ws [' ']] [tk .word "well".toList]
+    (by intro t ht; simp only [List.mem_cons, List.not_mem_nil, or_false] at ht; rcases ht with rfl | rfl <;> rfl)
+    (by decide)
+    (by decide) (Or.inr (Or.inr ⟨"Mix".toList, ' ', by decide, by decide⟩)) (by intro s hs; cases hs)
+    (C17_exDocWF _ (by decide) (by
+      intro d hd
+      simp only [List.nil_append, List.mem_cons, List.not_mem_nil, or_false] at hd
+      subst hd; exact ⟨_, rfl⟩))
+    (by decide)
+  have e1 : render ([] ++ docSpec ([] ++ (DocItem.step ([] ++ SegX.text ([tk .word "Mix".toList, tk .ws [' ']] ++
+      [tk .blockComment "[- c -]".toList, tk .ws [' ']] ++ [tk .word "well".toList]) :: []), [tk .newline ['\n']]) :: [])) =
+      "Mix [- c -] well\n".toList := by decide
+  have e2 : render ([] ++ docSpec ([] ++ (DocItem.step ([] ++ SegX.text ([tk .word "Mix".toList, tk .ws [' ']] ++
+      [tk .word "well".toList]) :: []), [tk .newline ['\n']]) :: [])) = "Mix well\n".toList := by decide
+  rw [e1, e2] at h
+  exact h
+-- ===== end w9c17inline =====
 
 end Cook
